@@ -260,7 +260,18 @@ func (r *runner) runShard(k, nsh int) {
 	}
 }
 
-var reRepoFrame = regexp.MustCompile(`github\.com/robfig/soy/([A-Za-z0-9_/]+\.[A-Za-z0-9_().*]+)`)
+// (a sub-package: soy/parse.(*tree).x -> parse.(*tree).x ; the root package: soy.ParseGlobals stays soy.ParseGlobals)
+var reRepoFrame = regexp.MustCompile(`github\.com/robfig/(soy\.[A-Za-z0-9_().*]+|soy/[A-Za-z0-9_/]+\.[A-Za-z0-9_().*]+)`)
+
+// repoFrame returns the library function named on a line of a stack dump.
+func repoFrame(l string) []string {
+	m := reRepoFrame.FindStringSubmatch(l)
+	if m == nil {
+		return nil
+	}
+	m[1] = strings.TrimPrefix(m[1], "soy/")
+	return m
+}
 
 // siteFromDump picks the most specific /repo function from a Go crash or
 // SIGQUIT dump: the first repo frame of the first goroutine that has one.
@@ -269,7 +280,7 @@ func siteFromDump(dump string) string {
 		if strings.HasPrefix(l, "\t") {
 			continue
 		}
-		if m := reRepoFrame.FindStringSubmatch(l); m != nil {
+		if m := repoFrame(l); m != nil {
 			fn := m[1]
 			if strings.Contains(fn, "verif") || strings.Contains(fn, "errRecover") || isHelper(fn) {
 				continue
@@ -469,7 +480,7 @@ func parkedInRepo(dump string) (site string, summary string, ok bool) {
 			if strings.HasPrefix(l, "\t") {
 				continue
 			}
-			if f := reRepoFrame.FindStringSubmatch(l); f != nil && !strings.Contains(f[1], "verif") {
+			if f := repoFrame(l); f != nil && !strings.Contains(f[1], "verif") {
 				fn = f[1]
 				break
 			}
@@ -723,7 +734,7 @@ func raceKey(blk string) string {
 			continue
 		}
 		if inAccess && cur == "" {
-			if m := reRepoFrame.FindStringSubmatch(l); m != nil && !strings.Contains(m[1], "verif") {
+			if m := repoFrame(l); m != nil && !strings.Contains(m[1], "verif") {
 				cur = m[1]
 				if i := strings.LastIndex(cur, "("); i > 0 && !strings.HasPrefix(cur[i:], "(*") {
 					cur = cur[:i]
